@@ -12,6 +12,7 @@ From Coq Require Import List Arith Lia Bool.
 Require Import TT.Model.Str TT.Proofs.StrFacts TT.Model.TypeParse TT.Spec.TsLex TT.Spec.TsModule TT.Spec.TsObs.
 Require Import TT.Spec.C10Shape TT.Model.C10Zod TT.Spec.C10Check TT.Proofs.C10Proofs TT.Proofs.C10ParseTy TT.Proofs.C10LexTy.
 Require Import TT.Spec.C18Spec.
+Require TT.Proofs.C05Proofs.
 Import ListNotations.
 Local Open Scope char_scope.
 Local Open Scope list_scope.
@@ -91,10 +92,15 @@ Lemma flat_map_sw n tg l : flat_map (sw1 (KId n) [KId tg]) l = map (sw n tg) l.
 Proof. induction l as [|x r IH]; [reflexivity|]. cbn [flat_map map]. rewrite IH. unfold sw1, sw. destruct (tk_eqb (KId n) x); reflexivity. Qed.
 
 (* ---- lexing a name, a target, and the qualified name ---- *)
+Lemma lexm_nil f : 0 < f -> lexm f [] = [].
+Proof. destruct f; [lia|reflexivity]. Qed.
+Lemma ident_len n : is_ts_identifier n = true -> 0 < List.length n.
+Proof. destruct n; [discriminate|cbn [List.length]; lia]. Qed.
 Lemma lex_id1 n : is_ts_identifier n = true -> lex_module n = [KId n].
 Proof.
-  intros H. unfold lex_module. destruct n as [|c r] eqn:E; [discriminate|]. rewrite <- E in *.
-  rewrite <- (app_nil_r n) at 2. rewrite lex_ident by (auto; exact I). subst n. reflexivity.
+  intros H. unfold lex_module.
+  assert (Hx : lexm (S (List.length n)) (n ++ []) = KId n :: lexm (List.length n) []) by (apply lex_ident; auto).
+  rewrite app_nil_r in Hx. rewrite Hx, lexm_nil by (apply ident_len; exact H). reflexivity.
 Qed.
 Lemma try_dot c r : Ascii.eqb "." c = false -> try_punct ("." :: c :: r) = Some (["."], c :: r).
 Proof.
@@ -103,12 +109,268 @@ Proof.
 Qed.
 Lemma lex_qualified n : is_ts_identifier n = true -> lex_module (L "types." ++ n) = [KId (L "types"); kp "."; KId n].
 Proof.
-  intros H. unfold lex_module. destruct n as [|c r] eqn:E; [discriminate|]. rewrite <- E in *.
+  intros H. unfold lex_module.
   change (L "types." ++ n) with (L "types" ++ "." :: n). rewrite app_length. cbn [List.length L list_ascii_of_string plus].
   rewrite lex_ident; [|reflexivity|reflexivity].
-  assert (Hc : is_id_start c = true) by (subst n; cbn [is_ts_identifier] in H; apply andb_true_iff in H; tauto).
-  destruct (id_start_facts c Hc) as (_ & _ & _ & _ & _ & _ & _).
-  rewrite E at 1. rewrite lex_punct; try reflexivity.
-  - rewrite <- E. rewrite <- (app_nil_r n) at 1. rewrite lex_ident by (auto; exact I). reflexivity.
+  assert (Hx : forall f, lexm (S f) n = KId n :: lexm f []).
+  { intros f. rewrite <- (app_nil_r n) at 1. apply lex_ident; auto. }
+  destruct n as [|c r] eqn:E; [discriminate|].
+  assert (Hc : is_id_start c = true) by (cbn [is_ts_identifier] in H; apply andb_true_iff in H; tauto).
+  rewrite lex_punct; try reflexivity.
+  - rewrite Hx. reflexivity.
   - apply try_dot. apply Ascii.eqb_neq. intros <-. discriminate Hc.
+Qed.
+
+(* ---- the table on tokens ---- *)
+Definition keys_ok (m : mapping) : bool := forallb (fun kv => name_ok (fst kv)) m.
+Definition swm (m : mapping) (x : tk) : tk := fold_left (fun x kv => sw (fst kv) (snd kv) x) m x.
+
+Lemma name_not_taken n x : name_ok n = true -> In x taken_names -> str_eqb n (L x) = false.
+Proof.
+  intros Hn Hx. destruct (str_eqb n (L x)) eqn:E; [|reflexivity]. exfalso.
+  unfold name_ok in Hn. destruct n as [|c r]; [discriminate|]. apply andb_true_iff in Hn as [_ Hn]. apply negb_true_iff in Hn.
+  assert (in_names (c :: r) taken_names = true) by (unfold in_names; apply existsb_exists; exists x; auto). congruence.
+Qed.
+Lemma lookup_taken m x : keys_ok m = true -> In x taken_names -> lookup m (L x) = None.
+Proof.
+  intros Hk Hx. induction m as [|[k v] m IH]; [reflexivity|]. unfold keys_ok in Hk. cbn [forallb fst] in Hk. apply andb_true_iff in Hk as [Hk Hm].
+  cbn [lookup]. rewrite (name_not_taken k x Hk Hx). exact (IH Hm).
+Qed.
+Lemma prim_taken x : In x prim_names -> In x taken_names.
+Proof. cbn. intuition. Qed.
+Lemma prim3_taken v : in_names v ["string"; "number"; "boolean"]%string = true -> exists x, In x taken_names /\ v = L x.
+Proof. intros H. apply in_names_cases in H. destruct H as [x [Hin ->]]. exists x. split; [|reflexivity]. cbn in Hin |- *. intuition. Qed.
+Lemma swm_kp m p : swm m (KP p) = KP p.
+Proof. induction m as [|[k v] m IH]; [reflexivity|]. exact IH. Qed.
+Lemma swm_id m : keys_ok m = true -> map_ok m = true -> forall x, swm m (KId x) = KId (cname m x).
+Proof.
+  induction m as [|[k v] m IH]; intros Hk Hm x; [reflexivity|].
+  pose proof Hk as Hk0. unfold keys_ok in Hk. cbn [forallb fst] in Hk. apply andb_true_iff in Hk as [Hkn Hk].
+  unfold map_ok in Hm. cbn [forallb snd] in Hm. apply andb_true_iff in Hm as [Hv Hm].
+  change (swm ((k, v) :: m) (KId x)) with (swm m (sw k v (KId x))). unfold sw, cname. cbn [tk_eqb lookup].
+  destruct (str_eqb k x).
+  - rewrite (IH Hk Hm). unfold cname. destruct (prim3_taken v Hv) as [y [Hy ->]]. rewrite (lookup_taken m y Hk Hy). reflexivity.
+  - apply (IH Hk Hm).
+Qed.
+Lemma swm_taken m x : keys_ok m = true -> map_ok m = true -> In x taken_names -> swm m (KId (L x)) = KId (L x).
+Proof. intros Hk Hm Hx. rewrite swm_id by assumption. unfold cname. rewrite lookup_taken by assumption. reflexivity. Qed.
+
+Lemma subst_one_J n tg l : name_ok n = true -> in_names tg ["string"; "number"; "boolean"]%string = true -> J l = true ->
+  subst_one true n tg l = map (sw n tg) l.
+Proof.
+  intros Hn Ht HJ. unfold subst_one. destruct (idn_name n Hn) as [Hid _].
+  assert (Htg : lex_module tg = [KId tg]).
+  { apply in_names_cases in Ht. destruct Ht as [x [Hin ->]]. cbn in Hin. destruct Hin as [<-|[<-|[<-|[]]]]; reflexivity. }
+  rewrite Htg, (lex_id1 n Hid), (lex_qualified n Hid). unfold replace_tokens.
+  rewrite replace_dotted by (apply J_nodot; exact HJ).
+  rewrite replace_single; [apply flat_map_sw|lia|]. apply J_gd; [|exact HJ].
+  apply (name_not_taken n "Record"%string Hn). cbn. tauto.
+Qed.
+Theorem subst_tokens_pointwise : forall m l, keys_ok m = true -> map_ok m = true -> J l = true ->
+  subst_tokens true m l = map (swm m) l.
+Proof.
+  induction m as [|[k v] m IH]; intros l Hk Hm HJ.
+  - cbn. symmetry. erewrite map_ext; [apply map_id|reflexivity].
+  - pose proof Hk as Hk0. unfold keys_ok in Hk. cbn [forallb fst] in Hk. apply andb_true_iff in Hk as [Hkn Hk].
+    pose proof Hm as Hm0. unfold map_ok in Hm. cbn [forallb snd] in Hm. apply andb_true_iff in Hm as [Hv Hm].
+    change (subst_tokens true ((k, v) :: m) l) with (subst_tokens true m (subst_one true k v l)).
+    rewrite (subst_one_J k v l Hkn Hv HJ). rewrite IH; auto.
+    + rewrite map_map. apply map_ext. reflexivity.
+    + apply J_sw; [|exact HJ]. apply (name_not_taken k "Record"%string Hkn). cbn. tauto.
+Qed.
+
+(* ---- the token rendering of a TypeStructure under a table ---- *)
+Fixpoint tks (m : mapping) (t : tstruct) : list tk :=
+  match t with
+  | TPrim p => [KId p]
+  | TArr u | TSet u => tks m u ++ [kp "["; kp "]"]
+  | TMap k v => recd :: kp "<" :: tks m k ++ kp "," :: tks m v ++ [kp ">"]
+  | TTuple [] => [KId (L "void")]
+  | TTuple l => kp "[" :: sepk (kp ",") (map (tks m) l) ++ [kp "]"]
+  | TOpt u => tks m u ++ [kp "|"; KId (L "null")]
+  | TRes u => tks m u
+  | TCustom n => [KId (cname m n)]
+  end.
+
+Lemma pr_tks m : map_ok m = true -> forall t, dom t = true -> pr (ts_ty_of m t) = tks m t.
+Proof.
+  intros Hm. induction t as [p|u IH|k v IHk IHv|u IH|l IH|u IH|u IH|n] using ts_ind2; cbn [dom]; intros Hd.
+  - reflexivity.
+  - cbn [ts_ty_of tks]. rewrite pr_arr_of by (apply (nf_ts m Hm u Hd)). rewrite IH by exact Hd. reflexivity.
+  - apply andb_true_iff in Hd. destruct Hd as [Hk Hv]. destruct (key_ok_dom _ Hk) as [Hk1 _]. cbn [ts_ty_of tks].
+    assert (pr (TyRef [L "Record"] [ts_ty_of m k; ts_ty_of m v]) =
+            KId (L "Record") :: kp "<" :: pr (ts_ty_of m k) ++ kp "," :: pr (ts_ty_of m v) ++ [kp ">"]) as -> by (cbn [pr map sepk]; rewrite <- app_assoc; reflexivity).
+    rewrite IHk, IHv by assumption. reflexivity.
+  - cbn [ts_ty_of tks]. rewrite pr_arr_of by (apply (nf_ts m Hm u Hd)). rewrite IH by exact Hd. reflexivity.
+  - destruct l as [|a l']; [reflexivity|]. remember (a :: l') as l0 eqn:El.
+    assert (pr (ts_ty_of m (TTuple l0)) = kp "[" :: sepk (kp ",") (map pr (map (ts_ty_of m) l0)) ++ [kp "]"]) as -> by (subst; reflexivity).
+    assert (tks m (TTuple l0) = kp "[" :: sepk (kp ",") (map (tks m) l0) ++ [kp "]"]) as -> by (subst; reflexivity).
+    rewrite map_map. f_equal. f_equal. f_equal. apply map_ext_in. intros x Hx. rewrite Forall_forall in IH. apply IH; [exact Hx|].
+    rewrite forallb_forall in Hd. apply Hd; exact Hx.
+  - cbn [ts_ty_of tks]. rewrite pr_opt_of by (apply (nf_ts m Hm u Hd)). rewrite IH by exact Hd. reflexivity.
+  - cbn [ts_ty_of tks]. apply IH; exact Hd.
+  - cbn [ts_ty_of tks]. rewrite custom_ty_prim by exact Hm. reflexivity.
+Qed.
+
+Lemma map_sepk (f : tk -> tk) s l : map f (sepk s l) = sepk (f s) (map (map f) l).
+Proof. induction l as [|a r IH]; [reflexivity|]. destruct r as [|b r']; [reflexivity|].
+  change (sepk s (a :: b :: r')) with (a ++ s :: sepk s (b :: r')). rewrite map_app. cbn [map]. rewrite IH. reflexivity. Qed.
+
+(* the substitution lemma on tokens: rendering with the table = the table applied to the rendering without *)
+Theorem tks_swm m : keys_ok m = true -> map_ok m = true -> forall t, dom t = true -> map (swm m) (tks [] t) = tks m t.
+Proof.
+  intros Hk Hm. induction t as [p|u IH|k v IHk IHv|u IH|l IH|u IH|u IH|n] using ts_ind2; cbn [dom]; intros Hd.
+  - cbn [tks map]. apply in_names_cases in Hd. destruct Hd as [x [Hin ->]]. rewrite swm_taken; auto. apply prim_taken; exact Hin.
+  - cbn [tks]. rewrite map_app, IH by exact Hd. cbn [map]. unfold kp. rewrite !swm_kp. reflexivity.
+  - apply andb_true_iff in Hd. destruct Hd as [Hkk Hv]. destruct (key_ok_dom _ Hkk) as [Hk1 _]. cbn [tks map].
+    rewrite map_app. cbn [map]. rewrite map_app. cbn [map]. rewrite IHk, IHv by assumption. unfold kp, recd. rewrite !swm_kp.
+    rewrite (swm_taken m "Record"%string) by (auto; cbn; tauto). reflexivity.
+  - cbn [tks]. rewrite map_app, IH by exact Hd. cbn [map]. unfold kp. rewrite !swm_kp. reflexivity.
+  - destruct l as [|a l'].
+    + cbn [tks map]. rewrite (swm_taken m "void"%string) by (auto; cbn; tauto). reflexivity.
+    + remember (a :: l') as l0 eqn:El.
+      assert (forall m', tks m' (TTuple l0) = kp "[" :: sepk (kp ",") (map (tks m') l0) ++ [kp "]"]) as E by (intros; subst; reflexivity).
+      rewrite !E. cbn [map]. rewrite map_app, map_sepk. cbn [map]. unfold kp. rewrite !swm_kp. f_equal. f_equal. f_equal.
+      rewrite map_map. apply map_ext_in. intros x Hx. rewrite Forall_forall in IH. apply IH; [exact Hx|].
+      rewrite forallb_forall in Hd. apply Hd; exact Hx.
+  - cbn [tks]. rewrite map_app, IH by exact Hd. cbn [map]. unfold kp. rewrite !swm_kp.
+    rewrite (swm_taken m "null"%string) by (auto; cbn; tauto). reflexivity.
+  - cbn [tks]. apply IH; exact Hd.
+  - cbn [tks map]. rewrite swm_id by assumption. reflexivity.
+Qed.
+
+(* ---- the streams satisfy the invariant ---- *)
+Lemma J_app a b : J a = true -> J b = true -> next_is_lt b = false -> J (a ++ b) = true.
+Proof.
+  intros Ha Hb Hlt. induction a as [|x a' IH]; [exact Hb|]. cbn [J app] in *.
+  apply andb_true_iff in Ha as [Ha Hr]. apply andb_true_iff in Ha as [Ho Hx]. rewrite Ho, (IH Hr). cbn [andb]. rewrite andb_true_r.
+  destruct a' as [|y a'']; [cbn [app]; rewrite Hlt; reflexivity|exact Hx].
+Qed.
+Lemma nlt_tks m : forall t r, next_is_lt (tks m t ++ r) = false.
+Proof.
+  induction t as [p|u IH|k v IHk IHv|u IH|l IH|u IH|u IH|n] using ts_ind2; intros r; cbn [tks]; try reflexivity.
+  - rewrite <- app_assoc. apply IH.
+  - rewrite <- app_assoc. apply IH.
+  - destruct l; reflexivity.
+  - rewrite <- app_assoc. apply IH.
+  - apply IH.
+Qed.
+Lemma nlt_sepk m b l r : next_is_lt (sepk (kp ",") (map (tks m) (b :: l)) ++ r) = false.
+Proof. destruct l as [|c l']; [apply nlt_tks|]. change (map (tks m) (b :: c :: l')) with (tks m b :: map (tks m) (c :: l')).
+  change (sepk (kp ",") (tks m b :: map (tks m) (c :: l'))) with (tks m b ++ kp "," :: sepk (kp ",") (map (tks m) (c :: l'))).
+  rewrite <- app_assoc. apply nlt_tks. Qed.
+Lemma J_sepk m l : Forall (fun t => J (tks m t) = true) l -> J (sepk (kp ",") (map (tks m) l)) = true.
+Proof.
+  induction 1 as [|a r Ha Hr IH]; [reflexivity|]. destruct r as [|b r']; [exact Ha|].
+  change (sepk (kp ",") (map (tks m) (a :: b :: r'))) with (tks m a ++ kp "," :: sepk (kp ",") (map (tks m) (b :: r'))).
+  apply J_app; [exact Ha| |reflexivity]. cbn [J]. rewrite IH. pose proof (nlt_sepk m b r' []) as H. rewrite app_nil_r in H. rewrite H. reflexivity.
+Qed.
+Lemma J_tks m : forall t, J (tks m t) = true.
+Proof.
+  induction t as [p|u IH|k v IHk IHv|u IH|l IH|u IH|u IH|n] using ts_ind2; cbn [tks]; try reflexivity.
+  - apply J_app; [exact IH|reflexivity|reflexivity].
+  - change (recd :: kp "<" :: tks m k ++ kp "," :: tks m v ++ [kp ">"]) with ([recd; kp "<"] ++ (tks m k ++ kp "," :: tks m v ++ [kp ">"])).
+    apply J_app; [reflexivity| |apply nlt_tks]. apply J_app; [exact IHk| |reflexivity].
+    cbn [J]. rewrite nlt_tks. rewrite J_app; [reflexivity|exact IHv|reflexivity|reflexivity].
+  - apply J_app; [exact IH|reflexivity|reflexivity].
+  - destruct l as [|a l']; [reflexivity|]. cbn [J]. rewrite nlt_sepk. rewrite J_app; [reflexivity|apply J_sepk; exact IH|reflexivity|reflexivity].
+  - apply J_app; [exact IH|reflexivity|reflexivity].
+  - exact IH.
+Qed.
+
+(* ---- the lexer reads exactly these tokens from the text of the plain renderer ---- *)
+Lemma lex_plain m t : map_ok m = true -> dom t = true -> lex_module (plain m t) = tks m t.
+Proof.
+  intros Hm Hd. unfold lex_module.
+  destruct (LX_plain m Hm t Hd [] (S (List.length (plain m t)))) as [f' [Hf' E]]; [exact I|constructor|rewrite app_nil_r; lia|].
+  rewrite app_nil_r in E. rewrite E. rewrite lexm_nil by exact Hf'. rewrite app_nil_r. apply pr_tks; assumption.
+Qed.
+
+Theorem rel_tokens m t : keys_ok m = true -> map_ok m = true -> dom t = true ->
+  lex_module (plain m t) = subst_tokens true m (lex_module (plain [] t)) /\ has_err (lex_module (plain m t)) = false.
+Proof.
+  intros Hk Hm Hd. rewrite (lex_plain m t Hm Hd), (lex_plain [] t eq_refl Hd). split.
+  - rewrite subst_tokens_pointwise by (auto; apply J_tks). symmetry. apply tks_swm; assumption.
+  - rewrite <- (pr_tks m Hm t Hd). apply has_err_pr.
+Qed.
+
+(* ---- no identifier N or NSchema of a mapped N is left ---- *)
+Definition fixed_ids : list string := ["string"; "number"; "boolean"; "void"; "null"; "Record"]%string.
+Lemma in_sepk (z s : tk) l : In z (sepk s l) -> z = s \/ exists a, In a l /\ In z a.
+Proof.
+  induction l as [|a r IH]; [intros []|]. destruct r as [|b r'].
+  - intros H. right. exists a. split; [left; reflexivity|exact H].
+  - change (sepk s (a :: b :: r')) with (a ++ s :: sepk s (b :: r')). intros H. apply in_app_or in H. destruct H as [H|[H|H]].
+    + right. exists a. split; [left; reflexivity|exact H].
+    + left. symmetry. exact H.
+    + destruct (IH H) as [H1|[c [Hc Hz]]]; [left; exact H1|]. right. exists c. split; [right; exact Hc|exact Hz].
+Qed.
+Lemma ids_tks m (P : str -> Prop) : (forall x, In x fixed_ids -> P (L x)) ->
+  forall t, dom t = true -> (forall n, In n (C05Proofs.customs t) -> P (cname m n)) -> forall y, In (KId y) (tks m t) -> P y.
+Proof.
+  intros HF. unfold kp, recd in *.
+  induction t as [p|u IH|k v IHk IHv|u IH|l IH|u IH|u IH|n] using ts_ind2; cbn [dom tks C05Proofs.customs]; unfold kp, recd; intros Hd Hc y Hy.
+  - destruct Hy as [Hy|[]]. inversion Hy; subst. apply in_names_cases in Hd. destruct Hd as [x [Hin ->]]. apply HF. cbn in Hin |- *. intuition.
+  - apply in_app_or in Hy. destruct Hy as [Hy|[Hy|[Hy|[]]]]; try discriminate Hy. apply IH; auto.
+  - apply andb_true_iff in Hd. destruct Hd as [Hkk Hv]. destruct (key_ok_dom _ Hkk) as [Hk1 _].
+    destruct Hy as [Hy|[Hy|Hy]]; try discriminate Hy.
+    + inversion Hy; subst. apply (HF "Record"%string). cbn. tauto.
+    + apply in_app_or in Hy. destruct Hy as [Hy|[Hy|Hy]]; try discriminate Hy.
+      * apply IHk; auto. intros n Hn. apply Hc. apply in_or_app. left; exact Hn.
+      * apply in_app_or in Hy. destruct Hy as [Hy|[Hy|[]]]; try discriminate Hy.
+        apply IHv; auto. intros n Hn. apply Hc. apply in_or_app. right; exact Hn.
+  - apply in_app_or in Hy. destruct Hy as [Hy|[Hy|[Hy|[]]]]; try discriminate Hy. apply IH; auto.
+  - destruct l as [|a l'].
+    + destruct Hy as [Hy|[]]. inversion Hy; subst. apply (HF "void"%string). cbn. tauto.
+    + remember (a :: l') as l0 eqn:El.
+      assert (tks m (TTuple l0) = KP (L "[") :: sepk (KP (L ",")) (map (tks m) l0) ++ [KP (L "]")]) as E by (subst; reflexivity).
+      assert (In (KId y) (KP (L "[") :: sepk (KP (L ",")) (map (tks m) l0) ++ [KP (L "]")])) as Hy' by (subst; exact Hy).
+      clear Hy E. destruct Hy' as [Hy|Hy]; try discriminate Hy. apply in_app_or in Hy. destruct Hy as [Hy|[Hy|[]]]; try discriminate Hy.
+      apply in_sepk in Hy. destruct Hy as [Hy|[toks [Ht Hy]]]; try discriminate Hy.
+      apply in_map_iff in Ht. destruct Ht as [x [<- Hx]]. rewrite Forall_forall in IH. apply (IH x Hx); auto.
+      * rewrite forallb_forall in Hd. apply Hd; exact Hx.
+      * intros n Hn. apply Hc. apply in_flat_map. exists x. split; assumption.
+  - apply in_app_or in Hy. destruct Hy as [Hy|[Hy|[Hy|[]]]]; try discriminate Hy; [apply IH; auto|].
+    inversion Hy; subst. apply (HF "null"%string). cbn. tauto.
+  - apply IH; auto.
+  - destruct Hy as [Hy|[]]. inversion Hy; subst. apply Hc. left; reflexivity.
+Qed.
+
+Lemma occ_none hd : forall toks ac, (forall y, In (KId y) toks -> y <> hd /\ y <> hd ++ L "Schema") -> occurs_bare hd toks ac = false.
+Proof.
+  induction toks as [|a r IH]; intros ac H; [reflexivity|]. cbn [occurs_bare]. rewrite IH by (intros y Hy; apply H; right; exact Hy).
+  rewrite orb_false_r. destruct a; try apply andb_false_r. destruct (H s (or_introl eq_refl)) as [H1 H2].
+  apply str_eqb_neq in H1, H2. rewrite H1, H2. apply andb_false_r.
+Qed.
+Lemma not_schema_fixed n x : In x fixed_ids -> L x <> n ++ L "Schema".
+Proof.
+  intros Hin E. apply (f_equal (@rev ascii)) in E. rewrite rev_app_distr in E.
+  cbn in Hin. destruct Hin as [<-|[<-|[<-|[<-|[<-|[<-|[]]]]]]]; cbn [rev app L list_ascii_of_string] in E; discriminate E.
+Qed.
+Lemma fixed_taken x : In x fixed_ids -> In x taken_names.
+Proof. cbn. intuition. Qed.
+Lemma lookup_key_ok m : keys_ok m = true -> forall n tg, lookup m n = Some tg -> name_ok n = true.
+Proof.
+  induction m as [|[k v] m IH]; intros Hk n tg; [discriminate|]. unfold keys_ok in Hk. cbn [forallb fst] in Hk. apply andb_true_iff in Hk as [Hkn Hk].
+  cbn [lookup]. destruct (str_eqb k n) eqn:E; [apply str_eqb_eq in E; subst; auto|apply IH; exact Hk].
+Qed.
+
+(* the side condition of the oracle's "no longer referred to" test at type sites: the test also looks for
+   the identifier NSchema, so an unmapped project type that is literally called NSchema is excluded *)
+Definition noschema (m : mapping) (t : tstruct) : bool :=
+  forallb (fun kv => negb (existsb (fun c => str_eqb c (fst kv ++ L "Schema")) (C05Proofs.customs t))) m.
+
+Theorem no_refs m t n tg : keys_ok m = true -> map_ok m = true -> dom t = true ->
+  (forall c, In c (C05Proofs.customs t) -> c <> n ++ L "Schema") -> lookup m n = Some tg ->
+  refers_to n (tks m t) = false.
+Proof.
+  intros Hk Hm Hd Hns Hl. pose proof (lookup_key_ok m Hk n tg Hl) as Hn. destruct (idn_name n Hn) as [Hid _].
+  unfold refers_to. rewrite (lex_id1 n Hid). apply occ_none.
+  assert (HF : forall x, In x fixed_ids -> L x <> n /\ L x <> n ++ L "Schema").
+  { intros x Hx. split; [|apply not_schema_fixed; exact Hx]. pose proof (name_not_taken n x Hn (fixed_taken x Hx)) as H.
+    apply str_eqb_neq in H. congruence. }
+  apply (ids_tks m (fun y => y <> n /\ y <> n ++ L "Schema") HF t Hd).
+  intros c Hc. unfold cname. destruct (lookup m c) as [v|] eqn:E.
+  - destruct (lookup_target0 m Hm c v E) as [->|[->| ->]]; [apply (HF "string"%string)|apply (HF "number"%string)|apply (HF "boolean"%string)]; cbn; tauto.
+  - split; [intros ->; congruence|apply Hns; exact Hc].
 Qed.
